@@ -2,6 +2,6 @@ SPECIFICATION Spec
 CONSTANTS
   MaxOrder = 5
   MaxDim = 4
-  HighOrders = {9, 10, 11}
+  HighOrders = {9, 10}
   MaxSize = 96
 INVARIANT SpecOK
